@@ -26,6 +26,36 @@ Theorem C19_jac_is_derivative :
 Proof. exact alg_jac_correct. Qed.
 Print Assumptions C19_jac_is_derivative.
 
+(* the same for an over-long parameter vector (the code ignores the surplus entries) *)
+Theorem C19_jac_is_derivative_long_vector :
+  forall (A : Type) (zero one : A) (add mul : A -> A -> A) (dag : A -> A)
+         (Sc : Type) (ev : A -> Sc) (obs : A)
+         (blockU : nat -> list nat -> A) (fixedU : nat -> A) (blockdU : nat -> list nat -> nat -> A)
+         (d : nat -> A -> A) (D : nat -> Sc -> Sc),
+    diff_algebra A zero one add mul dag Sc ev obs blockU fixedU blockdU d D ->
+    forall (bs : list block) (layers : nat) (indices : option (list nat)) (La : nat),
+      1 <= layers -> forallb ok_kind bs = true ->
+      let L := free_parameters_num bs layers in
+      L <= La ->
+      exists c,
+        evaluate A one mul dag Sc ev obs blockU fixedU bs layers (seq 0 La) = Some c /\
+        compute_jac A one add mul dag Sc ev obs blockU fixedU blockdU bs layers (seq 0 La) indices
+        = Some (map (fun j => D j c) (filter (fun j => mem j (requested indices La)) (seq 0 L))).
+Proof. exact alg_jac_correct_long. Qed.
+Print Assumptions C19_jac_is_derivative_long_vector.
+
+(* a parameter vector that is too short is rejected by cost and gradient alike (no silent mis-slicing) *)
+Theorem C19_short_vector_rejected :
+  forall (A : Type) (one : A) (add mul : A -> A -> A) (dag : A -> A) (Sc : Type) (ev : A -> Sc) (obs : A)
+         (blockU : nat -> list nat -> A) (fixedU : nat -> A) (blockdU : nat -> list nat -> nat -> A)
+         (bs : list block) (layers La : nat),
+    1 <= layers -> forallb ok_kind bs = true ->
+    La < free_parameters_num bs layers ->
+    evaluate A one mul dag Sc ev obs blockU fixedU bs layers (seq 0 La) = None /\
+    (forall indices, compute_jac A one add mul dag Sc ev obs blockU fixedU blockdU bs layers (seq 0 La) indices = None).
+Proof. exact short_vector_rejected. Qed.
+Print Assumptions C19_short_vector_rejected.
+
 (* one entry per free parameter *)
 Theorem C19_jac_length :
   forall (A : Type) (zero one : A) (add mul : A -> A -> A) (dag : A -> A)
